@@ -216,18 +216,28 @@ def synthetic(ctx):
             sh = Shard("c07_syn_%d" % len(shards))
             shards.append(sh)
         ti = sh.add_table(isa, table)
+        twin = None
         for q in range(n_look):
-            key, form = ctx.rng.choice(table)
-            ops = L.instantiate_all(isa, form, ctx.rng)
-            r = ctx.rng.random()
-            mode = "own"
-            if ops is None or r < 0.15:
-                ops = [L.random_operand(isa, ctx.rng) for _ in range(ctx.rng.randint(0, 4))]
-                mode = "random"
-            elif r < 0.6:
-                ops = L.near_miss(isa, ops, ctx.rng)
-                mode = "near"
-            mn = L.spellings(isa, key, ctx.rng)
+            if twin is not None:
+                # the same instruction with the displacement KIND flipped (number <-> symbol), looked up right after on the same
+                # model object: what was looked up before must not matter
+                key, form, mn, ops = twin
+                twin, mode = None, "twin"
+            else:
+                key, form = ctx.rng.choice(table)
+                ops = L.instantiate_all(isa, form, ctx.rng)
+                r = ctx.rng.random()
+                mode = "own"
+                if ops is None or r < 0.15:
+                    ops = [L.random_operand(isa, ctx.rng) for _ in range(ctx.rng.randint(0, 4))]
+                    mode = "random"
+                elif r < 0.6:
+                    ops = L.near_miss(isa, ops, ctx.rng)
+                    mode = "near"
+                mn = L.spellings(isa, key, ctx.rng)
+                flip = L.flip_displacement_kind(ops)
+                if flip is not None and ctx.rng.random() < 0.6:
+                    twin = (key, form, mn, flip)
             path_kind = "tp_lt" if ctx.rng.random() < 0.7 else "src_dst"
             (res, main, extra, err), _form = (L.real_lookup_tp_lt if path_kind == "tp_lt" else L.real_lookup_src_dst)(sem, rec, mn, ops)
             meta = {"model": t, "isa": isa, "mn": mn, "ops": L.show_ops(ops), "mode": mode, "path": path_kind}
